@@ -26,4 +26,5 @@ func registerStreams(m map[string]Stream) {
 	m["session"] = sessionStream{}
 	m["tdbindwire"] = tdBindWireStream{}
 	m["hostile-live"] = hostileLiveStream{}
+	m["addr"] = addrStream{}
 }
